@@ -3,16 +3,20 @@ use crate::rt::Lane;
 pub mod c01;
 pub mod c02;
 pub mod c03;
+pub mod c04;
+pub mod c05;
 pub mod c06;
 pub mod c08;
 
-pub const PROPS: [&str; 5] = ["C01", "C02", "C03", "C06", "C08"];
+pub const PROPS: [&str; 7] = ["C01", "C02", "C03", "C04", "C05", "C06", "C08"];
 
 pub fn lanes(prop: &str) -> Vec<Lane> {
     match prop {
         "C01" => c01::lanes(),
         "C02" => c02::lanes(),
         "C03" => c03::lanes(),
+        "C04" => c04::lanes(),
+        "C05" => c05::lanes(),
         "C06" => c06::lanes(),
         "C08" => c08::lanes(),
         _ => vec![],
